@@ -28,10 +28,12 @@
 (* ContinueOnCtx = FALSE is the code (a context error always ends the        *)
 (* worker, whatever the options); TRUE is the mutation "with ContinueOnError *)
 (* + IncludeContextExpirationErrors a context error is continued".           *)
-(* LoopChecksCtx = TRUE is the code (producer.go: the worker looks at its    *)
-(* context before every call of the generator); FALSE is the loop without    *)
-(* that check, which trusts CanContinueOnError to end it: together with      *)
+(* LoopChecksCtx = FALSE is the code (producer.go:531-541: the worker calls  *)
+(* the generator without looking at its own context and trusts              *)
+(* CanContinueOnError to end the loop on a context error); together with     *)
 (* ContinueOnCtx the worker calls the generator for ever (Settles fails).    *)
+(* TRUE is the hardened loop (the withdrawn repair 21f453d had it): it looks *)
+(* at its context before every call and survives ContinueOnCtx.              *)
 (***************************************************************************)
 EXTENDS Integers, Sequences, FiniteSets, Bags, BagsExt, TLC
 
